@@ -51,6 +51,9 @@ CHECKS = {
  "C17": ("fault_enumeration", "gridx", "exhaustive fault injection into a recording serializer and a value-tree deserializer (failure at each k-th callback)",
          "For every value of the payload family (integers, strings, tuples, sequences, options, hand-written struct/enum/newtype+map) and every k the sequence of Serializer calls and the result through Arc<T>/UniqueArc<T> must be identical to those of serialising the value; for every input tree (well-formed and ill-typed) and every k deserialising the handle is Ok iff the value's deserializer is Ok, with an equal value, count 1 and exactly one extra allocation, and on Err the same error and nothing left allocated.",
          "two hand-written serde back ends stand for 'every serializer'; serde feature on"),
+ "C10": ("model_checking", "seqx+gridx", "explicit-state BFS over thin/fat handle histories incl. every with_arc_mut callback behaviour x {return, panic}; exhaustive recorded-length grid for into_thin",
+         "Universe T of the explicit-state search reaches every state of fat, protected, thin, raw and unique handles to header+slice allocations of length 0 and 2 (<=4/5 handles, <=2 allocations); in every state thin and fat views must show the same header, recorded length == slice length, and identical element addresses; conversions keep the block and write no count; every with_arc_mut callback behaviour (nothing, write, clone out, replace by a fresh Arc, swap with another live Arc) with and without a panic must leave the ThinArc pointing at what the callback left and the replaced allocation with exactly one owner less. The grid half calls into_thin for every (true length, recorded length, shape pair, sole/co-owned).",
+         "bounds as stated; lengths {0,2} in the search, 0..=4 (6) in the grid"),
 }
 props = [json.loads(l) for l in open('/verif/properties.jsonl')]
 m = {
@@ -64,8 +67,8 @@ m = {
   "add_only": True,
  },
  "engines": [
-  {"name": "seqx", "path": "harness/seqx", "serves_properties": ["C01", "C03", "C04", "C08", "C09"], "kind_free_text": "explicit-state BFS over handle histories; each transition re-executes the history on the real crate under the arena allocator and compares with a reference model"},
-  {"name": "gridx", "path": "harness/gridx", "serves_properties": ["C05", "C06", "C07", "C11", "C12", "C14", "C15", "C16", "C17"], "kind_free_text": "exhaustive enumeration of finite shape / input / fault grids, each cell executed on the real crate under the arena allocator"},
+  {"name": "seqx", "path": "harness/seqx", "serves_properties": ["C01", "C03", "C04", "C08", "C09", "C10", "C11"], "kind_free_text": "explicit-state BFS over handle histories; each transition re-executes the history on the real crate under the arena allocator and compares with a reference model"},
+  {"name": "gridx", "path": "harness/gridx", "serves_properties": ["C05", "C06", "C07", "C10", "C11", "C12", "C14", "C15", "C16", "C17"], "kind_free_text": "exhaustive enumeration of finite shape / input / fault grids, each cell executed on the real crate under the arena allocator"},
   {"name": "typex", "path": "lib/typex.py", "serves_properties": ["C13"], "kind_free_text": "generator of client probe crates + cargo check driver; rustc decides each cell"},
   {"name": "loomx", "path": "harness/loomx", "serves_properties": ["C02", "C03", "C08", "C09"], "kind_free_text": "loom 0.7.2 stateless exploration of thread programs on the real crate through the cfg(triomphe_verif) atomic shim"},
  ],
